@@ -502,6 +502,7 @@ fn churn<S: Service>(a: &[String], config: &Config, out: &mut Out) {
     let mut log = vec![];
     for i in 0..n {
         let client = fac.client_builder().backpressure_strategy(BackpressureStrategy::DiscardData).create().expect("client");
+        let _ = server.has_requests(); // the server attaches to the new client
         let p = client.send_copy(i as u64).expect("send");
         drop(p);
         drop(client);
@@ -515,7 +516,19 @@ fn churn<S: Service>(a: &[String], config: &Config, out: &mut Out) {
             Err(_) => { log.push("P".into()); break; }
         }
     }
-    out.line(&format!("PROBE churn clients={} faf={} receive={}", n, faf as u8, log.join(",")));
+    // now a client whose request IS held by the server (ActiveRequest alive) vanishes
+    let held = catch_unwind(AssertUnwindSafe(|| {
+        let client = fac.client_builder().backpressure_strategy(BackpressureStrategy::DiscardData).create().expect("client");
+        let p = client.send_copy(999).expect("send");
+        let a = server.receive().expect("receive").expect("request");
+        drop(p);
+        drop(client);
+        let r = match server.receive() { Ok(None) => "n".to_string(), Ok(Some(_)) => "a".to_string(), Err(e) => recv_err(e) };
+        drop(a);
+        r
+    }));
+    let held = match held { Ok(s) => s, Err(_) => { log.push("P".into()); "P".to_string() } };
+    out.line(&format!("PROBE churn clients={} faf={} receive={} then_held_request_client_vanishes={}", n, faf as u8, log.join(","), held));
     if log.last().map(|s| s == "P").unwrap_or(false) {
         std::mem::forget(server);
     }
